@@ -83,7 +83,22 @@ def do_read(spec):
 
         def seeking():
             return SeekingReader(open(path, "rb"), validate_crcs=True)
-        results.append({"file": path, "stream": dump_with(stream), "seeking": dump_with(seeking)})
+        # one SeekingReader instance reused for every query, in the order time-ordered read first, file-order
+        # read second: a reader's answers must not depend on what it was asked before
+        shared = []
+
+        def reused():
+            if not shared:
+                shared.append(SeekingReader(open(path, "rb"), validate_crcs=True))
+                try:
+                    for _ in shared[0].iter_messages(log_time_order=True):
+                        pass
+                    for _ in shared[0].iter_messages(log_time_order=True, reverse=True):
+                        pass
+                except Exception:  # noqa: BLE001 - reported by the dump below
+                    pass
+            return shared[0]
+        results.append({"file": path, "stream": dump_with(stream), "seeking": dump_with(seeking), "seeking_reused": dump_with(reused)})
     return results
 
 
